@@ -268,11 +268,15 @@ class Composition(Loggable):
 
     def _update_recursive(self, comp, chain=None, target_time=None):
         chain = chain or {}
-        if comp in chain:
+        # a component without time step is only part of a cycle if it is
+        # reached again for the same time
+        key = comp if isinstance(comp, ITimeComponent) else (comp, target_time)
+        if key in chain:
             with ErrorLogger(self.logger):
                 joined = " >> ".join(
                     [
-                        f"({'*' if delayed else ''}{t or '-'}) {c.name}"
+                        f"({'*' if delayed else ''}{t or '-'}) "
+                        f"{(c[0] if isinstance(c, tuple) else c).name}"
                         for c, (t, delayed) in reversed(chain.items())
                     ]
                 )
@@ -285,7 +289,7 @@ class Composition(Loggable):
                     f"or increase the adapter's delay."
                 )
 
-        chain[comp] = None
+        chain[key] = None
 
         if isinstance(comp, ITimeComponent):
             target_time = comp.next_time
@@ -296,10 +300,10 @@ class Composition(Loggable):
             c = self._output_owners[dep]
             if isinstance(c, ITimeComponent):
                 if dep.time < local_time:
-                    chain[comp] = (local_time - dep.time, delayed)
+                    chain[key] = (local_time - dep.time, delayed)
                     return self._update_recursive(c, chain)
             else:
-                chain[comp] = (None, delayed)
+                chain[key] = (None, delayed)
                 updated = self._update_recursive(c, chain, local_time)
                 if updated is not None:
                     return updated
@@ -315,7 +319,7 @@ class Composition(Loggable):
 
         # a component without time that needs no upstream update is done:
         # it is no longer part of the dependency chain
-        del chain[comp]
+        del chain[key]
         return None
 
     def _collect_adapters(self):
